@@ -92,7 +92,7 @@ def work(job):
         import z3  # noqa: F401
         from . import smt
         from .models import MODELS
-        from . import iomodel, hdrmodel, wrmodel  # noqa: F401  (register models)
+        from . import iomodel, hdrmodel, wrmodel, bytesmodel  # noqa: F401  (register models)
         from .source import Source
         from .verify import Verifier
         sys.path.insert(0, VERIF)
@@ -122,11 +122,12 @@ def work(job):
         res = []
         for o in obls:
             if o.cls == "C":
-                r, _m = smt.check_sat(o.premises, timeout_ms=min(timeout_ms, 5000))
+                # vacuity guard: most covers are satisfiable in milliseconds; an undecided one gets two cheap retries
+                # under restrictions (a model under a restriction is still a model), never a long search
+                r, _m = smt.check_sat(o.premises, timeout_ms=min(timeout_ms, 1500), native_retry=False)
                 if r == "unknown":
-                    # a model under extra restrictions (small sizes) is still a model
-                    for bound in (1, 3):
-                        r, _m = smt.check_sat(list(o.premises) + small_scope(o.params, bound), timeout_ms=min(timeout_ms, 5000))
+                    for extra in (smt.bound_int_consts(o.premises, 1), small_scope(o.params, 3) + smt.bound_int_consts(o.premises, 3)):
+                        r, _m = smt.check_sat(list(o.premises) + extra, timeout_ms=min(timeout_ms, 1500), native_only=True)
                         if r == "sat":
                             break
                         r = "unknown"
@@ -222,7 +223,7 @@ def run_jobs(keys, timeout_ms, known, nproc=None):
     for k in keys:
         c = reg.get(k)
         combos = case_combos(c) if c is not None and getattr(c, "kind", "function") == "function" and c.cases else []
-        if len(combos) > 4 and not c.trusted:
+        if len(combos) >= 2 and not c.trusted:
             jobs.extend((k, timeout_ms, known, combo) for combo in combos)  # one job per case: cases are independent
         else:
             jobs.append((k, timeout_ms, known, None))
